@@ -8,6 +8,7 @@ The walk of the import graph (`visit`) is an executable model of `packages.Visit
 correspondence, and the concrete shapes below are kernel-checked evaluations (labelled as such).
 -/
 import GooseVerif.Lemmas.Header
+import GooseVerif.Lemmas.FfiSearch
 import GooseVerif.Gen.Ffi
 import GooseVerif.Expected.Ffi
 
@@ -53,6 +54,45 @@ theorem ffi_result_shape (g : Graph) (root : String) :
   | [] => simp
   | [f] => simp
   | a :: b :: rest => simp
+
+/-! ### the FFI search: `getFfi` in terms of reachability through imports that stops at FFI packages
+(`Reach g root p`: there is an import path from `root` to `p` on which no package before `p` is an
+FFI package). Proofs: `Lemmas/FfiSearch.lean`; they hold for every graph, and `fuelFor g` is shown to
+be enough fuel. -/
+
+/-- The walk finds exactly the FFIs of the packages reachable without passing through an FFI
+package, each once. -/
+theorem ffi_search_characterised (g : Graph) (root : String) :
+    (∀ f, f ∈ (visit (fuelFor g) g [root] ([], [])).2 ↔ ∃ p, Reach g root p ∧ ffiOf p = some f) ∧
+    (visit (fuelFor g) g [root] ([], [])).2.Nodup := visit_complete_sound g root
+
+/-- The generic section ("none") is chosen exactly when no FFI package is reachable. -/
+theorem ffi_none_iff (g : Graph) (root : String) :
+    getFfi g root = .ffi "none" ↔ ∀ p, Reach g root p → ffiOf p = none := getFfi_none_iff g root
+
+/-- The prelude of FFI `f` is chosen exactly when `f` is reachable and is the only reachable FFI. -/
+theorem ffi_unique_iff (g : Graph) (root f : String) (hf : f ≠ "none") :
+    getFfi g root = .ffi f ↔
+      (∃ p, Reach g root p ∧ ffiOf p = some f) ∧
+      (∀ p f', Reach g root p → ffiOf p = some f' → f' = f) := getFfi_ffi_iff g root f hf
+
+/-- The package is refused exactly when two different FFIs are reachable. -/
+theorem ffi_refused_iff (g : Graph) (root : String) :
+    getFfi g root = .refused ↔
+      ∃ p q f f', Reach g root p ∧ Reach g root q ∧ ffiOf p = some f ∧ ffiOf q = some f' ∧ f ≠ f' :=
+  getFfi_refused_iff g root
+
+/-- Dependencies hidden behind an FFI package do not count: changing what FFI packages import
+(any graph `g'` that agrees with `g` on every non-FFI package) does not change the result. -/
+theorem ffi_hidden_do_not_count (g g' : Graph) (root : String)
+    (h : ∀ q, ffiOf q = none → g'.imports q = g.imports q) : getFfi g' root = getFfi g root :=
+  hidden_dependencies_do_not_count g g' root h
+
+/-- The result does not depend on the order (or repetition) inside import lists, nor on the order of
+the entries of a graph with distinct keys. -/
+theorem ffi_order_independent (g g' : Graph) (root : String)
+    (h : (∀ p, (g'.imports p).Perm (g.imports p)) ∨ (g.Pairwise (fun a b => a.1 ≠ b.1) ∧ g'.Perm g)) :
+    getFfi g' root = getFfi g root := order_independent g g' root h
 
 /-! ### Require lines: each non-builtin import exactly once, sorted, whatever the order and
 repetition of the import specs across files -/
